@@ -90,6 +90,7 @@ def jobs(tier, seed):
         "rule": [F([S(1), R([S(1)])])],
         "outline": [F([O(1, [(1, []), (1, [])], tags=["p<x>"]), S(1)])],
         "rule-outline": [F([R([O(1, [(2, [])], tags=["p<x>"])])])],
+        "outline-untagged": [F([O(1, [(1, []), (1, [])], noptags=True)])],
     }
     if tier == "thorough":
         shapes.update({
@@ -101,6 +102,8 @@ def jobs(tier, seed):
     dom = [0, 1] if tier == "quick" else [0, 5]
     for sname, sh in shapes.items():
         for i, (text, tree, proto) in enumerate(exprs):
+            if sname == "outline-untagged" and tier == "quick" and i not in (0, 1, 3, 6, 11, 13):
+                continue
             js.append(Job("sel.%s.e%02d" % (sname, i), "props.c09:h_select",
                           {"shapes": sh, "opts": {"ptags": ["a", "b", "ab"], "tag_universe": ["a", "b", "ab"],
                                                   "tag_expr": {"text": text, "tree": tree, "protocol": proto},
